@@ -288,6 +288,13 @@ def check_predict_tracking(chk, rep, repo):
            "sample conquered by the first node of the conquest order marks nothing", line=li.line)
     after = ("phi", li.lid, cname)
     marks = [e for e in w.events if e.kind == "call" and e.name == "mark_nodes" and e.target == ("attr", G, "mark_nodes")]
+    if len(marks) == 1 and marks[0].loops != li.loops and marks[0].loops and marks[0].loops[0] not in li.loops:
+        dom = w.loops[marks[0].loops[-1]].domain
+        from ..ir import root_object, subterms as _st
+        if dom is not None and any(t[0] == "alloc" and str(t[1]).startswith("numpy.") for t in _st(dom)):
+            raise AnalysisError("SupervisedOPF.predict: the conquerors are collected in an array and marked in a separate pass "
+                                f"over '{show(dom)[:60]}'; which nodes that pass visits is a whole-array computation - this form "
+                                "is outside the analysable fragment")
     ok = len(marks) == 1 and marks[0].args == (after,) and marks[0].loops == li.loops
     if ok:
         from ..ir import facts
@@ -446,6 +453,8 @@ def _comprehension_filter(G, t):
 
 def check_prune(chk, rep, repo):
     w = model_walk(repo, "SupervisedOPF", "prune")
+    from ..common import require_scalar_fragment
+    require_scalar_fragment(w, "SupervisedOPF.prune")
     fn = w.entry
     G = ("attr", ("self",), "subgraph")
     first = [e for e in w.events if e.kind == "call" and e.name == "predict" and not e.loops]
